@@ -150,6 +150,54 @@ func (*c12) Corpus() []any {
 	}
 	out = append(out, hist(c12Op("install", 1, eng.Flags{}, st, "a")))
 	out = append(out, c12MetaCorpus()...)
+	out = append(out, c12TestCorpus()...)
+	return out
+}
+
+// c12TestCorpus (section 8): helm test between the operations.  The release has two test hooks and pre-/post-delete,
+// pre-/post-rollback and pre-/post-upgrade hooks; helm test runs with an include filter, an exclude filter, both, none, and
+// with a failing test; afterwards uninstall, and upgrade + rollback, must still run every lifecycle hook the chart
+// declares (the record helm test stores must keep the hooks the filter set aside).  Secret and ConfigMap backends
+// serialise the record; the memory backend aliases it.
+func c12TestCorpus() []any {
+	var out []any
+	hooks := []eng.Hook{
+		hk("ht1", 1, []string{"test"}), hk("ht2", 2, []string{"test"}, "hook-succeeded"),
+		hk("hpre", 0, []string{"pre-delete", "pre-rollback", "pre-upgrade"}, "hook-succeeded"),
+		hk("hpost", 0, []string{"post-delete", "post-rollback", "post-upgrade"}),
+		hk("hboth", -1, []string{"pre-delete", "post-delete", "test"}, "before-hook-creation", "hook-failed"),
+	}
+	test := func(incl, excl []string) *eng.Op {
+		return &eng.Op{Kind: "test", TestInclude: incl, TestExclude: excl}
+	}
+	tests := []*eng.Op{
+		test([]string{"ht1"}, nil), test(nil, []string{"ht2"}), test(nil, nil), test([]string{"ht1", "ht2"}, []string{"ht2"}),
+		test([]string{"hnone"}, nil), withH(test([]string{"ht1"}, nil), "ht1", 0), withH(test(nil, nil), "ht2", 0),
+		withH(test(nil, []string{"hboth"}), "ht2", 0),
+	}
+	for _, be := range []string{"secret", "configmap", "memory"} {
+		for k, t := range tests {
+			if be != "secret" && k > 1 {
+				continue
+			}
+			h1 := hist(c12Op("install", 1, eng.Flags{}, hooks, "a"), t, c12Op("uninstall", 0, eng.Flags{KeepHistory: k%2 == 0}, nil))
+			h2 := hist(c12Op("install", 1, eng.Flags{}, hooks, "a"), t, c12Op("upgrade", 2, eng.Flags{}, hooks, "a", "b"), c12Op("rollback", 0, eng.Flags{}, nil))
+			h1.Backend, h2.Backend = be, be
+			out = append(out, h1, h2)
+		}
+	}
+	// two tests in a row, the second without filter runs what the first set aside; test of an uninstalled (kept) release;
+	// test without a release
+	out = append(out, hist(c12Op("install", 1, eng.Flags{}, hooks, "a"), test([]string{"ht2"}, nil), test(nil, nil), c12Op("uninstall", 0, eng.Flags{}, nil)))
+	out = append(out, hist(c12Op("install", 1, eng.Flags{}, hooks, "a"), c12Op("uninstall", 0, eng.Flags{KeepHistory: true}, nil), test(nil, nil)))
+	out = append(out, hist(test(nil, nil)))
+	// raw annotation strings: test-success, zero-padded weights, same name under two kinds (the stored order changes:
+	// skipped hooks come first)
+	raw := []eng.Hook{rawHk("ht1", "test-success", "w", "02"), rawHk("ht2", " Test", "w", "010", "d", "hook-succeeded"),
+		rawHk("hx", "pre-delete,test", "w", "1"), rawHookOf(eng.Res{Kind: "Secret", Name: "hx", Fields: map[string]string{"d:h": "YQ=="}}, "pre-delete,test", "w", "1"),
+		rawHk("hpost", "post-delete", "w", "08")}
+	out = append(out, hist(c12Op("install", 1, eng.Flags{}, raw, "a"), test([]string{"ht1", "hx"}, nil), c12Op("uninstall", 0, eng.Flags{}, nil)))
+	out = append(out, hist(c12Op("install", 1, eng.Flags{}, raw, "a"), test(nil, []string{"ht1"}), c12Op("uninstall", 0, eng.Flags{}, nil)))
 	return out
 }
 
